@@ -1926,7 +1926,7 @@ fn main() {
     // whatever its length): sizes around 64 KiB and 128 KiB
     {
         let sizes: Vec<usize> =
-            if args.thorough() { vec![65535, 65536, 65537, 70000, 131072, 131073, 200001] } else { vec![65537] };
+            if args.thorough() { vec![65536, 65537, 70000] } else { vec![65537] };
         for (i, n) in sizes.iter().enumerate() {
             let e = DExp::Gen(*n, 23 + i as u64, i % 2, 0);
             stream_c_case(&mut w, &e, &Route::Var, 0, 1000 + i as u64);
